@@ -18,7 +18,7 @@ RULE = ("Figure documents with 1-6 files: PNG (valid signature + IHDR with arbit
         "fig_width / fig_height scalar or lists shorter / equal / longer than the figure list; all alignments; the 27 "
         "placement triples; with/without title, subline, paragraph footnote and source. Oracle on the parsed picture "
         "destinations: count and order equal the file list, blip keyword matches the suffix format, hex payload "
-        "decodes to the file's exact bytes, \\picw/\\pich equal the generated PNG / JPEG dimensions, |\\picwgoal - w x "
+        "decodes to the file's exact bytes, \\picw/\\pich equal the generated PNG / JPEG dimensions (EMF: \\picw : \\pich = configured width : height), |\\picwgoal - w x "
         "1440| < 1 with sizes taken positionally and the last value reused, exactly one picture per page, "
         "alignment keyword, and title / footnote / source on the pages selected by the placement options. "
         "Non-trivial = >=2 figures or a size list shorter than the figure list.")
@@ -100,6 +100,14 @@ def check(case) -> Result:
             if (p.kw.get("picw"), p.kw.get("pich")) != (f["w"], f["h"]):
                 res.fail("pixel_dimensions", fmt, f"figure {i}: \\picw{p.kw.get('picw')}\\pich{p.kw.get('pich')} vs image {f['w']}x{f['h']}")
         w, h = size_at(fig.get("fig_width"), i), size_at(fig.get("fig_height"), i)
+        if fmt == "emf":
+            # no pixel header to read: whatever resolution the library assumes, the source size it writes must have
+            # the aspect of the configured display size (each of \picw, \pich is off by less than one unit)
+            pw, ph = p.kw.get("picw"), p.kw.get("pich")
+            if not pw or not ph or pw <= 0 or ph <= 0:
+                res.fail("pixel_dimensions", "emf/missing", f"figure {i}: \\picw{pw}\\pich{ph}")
+            elif abs((pw / ph) / (w / h) - 1) > 1.0 / pw + 1.0 / ph + 1e-9:
+                res.fail("pixel_dimensions", "emf/aspect", f"figure {i}: \\picw{pw}\\pich{ph} for a {w} x {h} in figure")
         gw, gh = p.kw.get("picwgoal"), p.kw.get("pichgoal")
         if gw is None or abs(gw - w * 1440) >= 1 or gh is None or abs(gh - h * 1440) >= 1:
             short = (isinstance(fig.get("fig_width"), list) and i >= len(fig["fig_width"])) or (isinstance(fig.get("fig_height"), list) and i >= len(fig["fig_height"]))
